@@ -628,7 +628,7 @@ def dump_one(f: TextIO, data: IOData) -> None:
 
     # Write energy and virial coefficient
     print("END DATA", file=f)
-    print(FMT_ENERGY.format(data.energy or np.nan, data.extra.get("virial_ratio", np.nan)), file=f)
+    print(FMT_ENERGY.format(np.nan if data.energy is None else data.energy, data.extra.get("virial_ratio", np.nan)), file=f)
 
     # Write MOSPIN extension section (optional)
     if data.extra.get("mo_spin") is not None:
